@@ -128,6 +128,13 @@ theorem iok_streamClosed (x : Inst) (cap : Nat) (w : Who) (h : IOK x) (hc : x.cl
       by rw [m7, m9]; exact h.d5, by rw [m7, m9]; exact h.d6, a1', fun hk _ => a2' hk, fun _ _ => Or.inl m1⟩
     rw [m5]; intro _ ha; exact absurd ha hna
 
+/-- **the idle task waits exactly `keep_alive_timeout`** on both workers, for every value of it (0 included: `wait_for(…, 0)` /
+    `move_on_after(0)` expire at once).  The two expressions are extracted (`asyncioIdleWait`, `trioIdleWait`): anything else than
+    the configured value itself - `keep_alive_timeout or None`, say, which turns 0 into "never" - and this no longer holds -/
+theorem Cfg.wait_eq (c : Cfg) : c.wait = some c.T := by
+  unfold Cfg.wait asyncioIdleWait trioIdleWait; split <;> rfl
+attribute [simp] Cfg.wait_eq
+
 /-! ### state-level invariant -/
 structure Inv (s : St) : Prop where
   inst : ∀ i, IOK (s.inst i)
@@ -135,6 +142,7 @@ structure Inv (s : St) : Prop where
   dl : ∀ d, s.timer = some d → d = s.armedAt + s.cfg.T
   lv : ∀ i, i < s.n → (s.inst i).closed = true ∨ i ∈ s.live     -- a stream the protocol has forgotten is closed
   nl : ∀ d, s.timer = some d → s.now ≤ d                         -- virtual time never passes an armed deadline
+  al : ∀ d, s.timer = some d → s.armedAt ≤ s.now                 -- … and the timer was started in the past
 
 theorem busy_mono (s s' : St) (h : ∀ j, j ∈ s'.live → j ∈ s.live ∧ ((s'.inst j).busy = true → (s.inst j).busy = true))
     (hb : s.busy = false) : s'.busy = false := by
@@ -149,7 +157,12 @@ theorem inv_like (s s' : St) (h : Inv s) (hi : ∀ j, IOK (s'.inst j))
     (ht : s'.timer = s.timer ∨ s'.timer = none) (ha : s'.armedAt = s.armedAt) (hc : s'.cfg = s.cfg)
     (hn : s'.n = s.n) (hcm : ∀ j, (s.inst j).closed = true → (s'.inst j).closed = true)
     (hlv : ∀ j, j ∈ s.live → j ∈ s'.live ∨ (s'.inst j).closed = true) (hnow : s'.now = s.now) : Inv s' := by
-  refine ⟨hi, ?_, ?_, ?_, ?_⟩
+  refine ⟨hi, ?_, ?_, ?_, ?_, ?_⟩
+  rotate_left 4
+  · intro d hd
+    rcases ht with e | e
+    · rw [ha, hnow]; exact h.al d (by rw [← e]; exact hd)
+    · rw [e] at hd; simp at hd
   rotate_left 3
   · intro d hd
     rcases ht with e | e
@@ -242,8 +255,9 @@ theorem inv_stopTimer (s : St) (h : Inv s) : Inv s.stopTimer := by
   · exact inv_like s _ h h.inst (fun j hj => ⟨hj, id⟩) (Or.inr rfl) rfl rfl rfl (fun _ hj => hj) (fun _ hj => Or.inl hj) rfl
   · exact h
 theorem inv_armTimer (s : St) (h : Inv s) (hb : s.busy = false) : Inv s.armTimer :=
-  ⟨h.inst, fun _ => hb, by intro d hd; simp [St.armTimer, St.emit] at hd ⊢; omega, h.lv,
-   by intro d hd; simp [St.armTimer, St.emit] at hd ⊢; omega⟩
+  ⟨h.inst, fun _ => hb, by intro d hd; simp [St.armTimer, St.emit, Cfg.wait_eq] at hd ⊢; omega, h.lv,
+   by intro d hd; simp [St.armTimer, St.emit, Cfg.wait_eq] at hd ⊢; omega,
+   by intro d hd; simp [St.armTimer, St.emit]⟩
 
 theorem inv_setInst (s : St) (i : Nat) (x : Inst) (h : Inv s) (hx : IOK x) (hb : x.busy = true → (s.inst i).busy = true)
     (hcl : (s.inst i).closed = true → x.closed = true) : Inv (s.setInst i x) := by
@@ -709,7 +723,9 @@ theorem exec_inv : ∀ (f : Nat) (s : St) (w : Who) (p : List Instr), Inv s → 
 theorem run_inv' (s : St) (w : Who) (p : List Instr) (h : Inv s) : Inv (s.run w p) := exec_inv _ s w p h
 
 theorem inv_newInst (s : St) (x : Inst) (h : Inv s) (ht : s.timer = none) (hx : IOK x) : Inv (s.newInst x) := by
-  refine ⟨?_, ?_, ?_, ?_, ?_⟩
+  refine ⟨?_, ?_, ?_, ?_, ?_, ?_⟩
+  rotate_left 5
+  · intro d hd; simp [St.newInst, ht] at hd
   rotate_left 4
   · intro d hd; simp [St.newInst, ht] at hd
   rotate_left 3
@@ -730,7 +746,7 @@ theorem inv_newInst (s : St) (x : Inst) (h : Inv s) (ht : s.timer = none) (hx : 
 
 theorem inv_timer_none (s s' : St) (h : Inv s) (e1 : s'.inst = s.inst) (e2 : s'.live = s.live) (e3 : s'.timer = none) (e4 : s'.n = s.n) : Inv s' :=
   ⟨by rw [e1]; exact h.inst, by intro ha; rw [e3] at ha; simp at ha, by intro d hd; rw [e3] at hd; simp at hd,
-   by rw [e1, e2, e4]; exact h.lv, by intro d hd; rw [e3] at hd; simp at hd⟩
+   by rw [e1, e2, e4]; exact h.lv, by intro d hd; rw [e3] at hd; simp at hd, by intro d hd; rw [e3] at hd; simp at hd⟩
 
 theorem iok_recv (x : Inst) (m : QMsg) (q' : List QMsg) (h : IOK x) (hq : x.q = m :: q') (hn : x.inflight = none) :
     IOK { x with q := q', recvd := x.recvd ++ [m], waitingRecv := false, direct := false } :=
@@ -927,15 +943,18 @@ theorem step_inv (s s' : St) (o : Op) (h : Inv s) (hs : step s o = some s') : In
       split at hs <;> simp at hs
       rename_i hg
       subst hs
-      refine ⟨h.inst, h.armed, h.dl, h.lv, ?_⟩
-      intro d' hd'
-      have : dl = d' := by simpa [hdl] using hd'
-      subst this
-      simp only [Bool.or_eq_true, not_or] at hg
-      have := hg.2; simp at this; omega
+      refine ⟨h.inst, h.armed, h.dl, h.lv, ?_, ?_⟩
+      · intro d' hd'
+        have : dl = d' := by simpa [hdl] using hd'
+        subst this
+        simp only [Bool.or_eq_true, not_or, Cfg.wait_eq, Option.isSome_some, Bool.true_and] at hg
+        have := hg.2; simp at this; omega
+      · intro d' hd'
+        have := h.al d' hd'
+        simp only [] at this ⊢; omega
     · rename_i hn
       simp at hs; subst hs
-      exact ⟨h.inst, h.armed, h.dl, h.lv, by intro d' hd'; simp [hn] at hd'⟩
+      exact ⟨h.inst, h.armed, h.dl, h.lv, by intro d' hd'; simp [hn] at hd', by intro d' hd'; simp [hn] at hd'⟩
   | timerFire =>
     simp only [step] at hs
     split at hs
@@ -955,7 +974,8 @@ theorem step_inv (s s' : St) (o : Op) (h : Inv s) (hs : step s o = some s') : In
     exact inv_emit _ _ (inv_congr _ _ (inv_stopTimer _ (inv_closeTransport s h)) rfl rfl rfl rfl rfl rfl rfl)
 
 theorem inv_init (cfg : Cfg) : Inv (init cfg) :=
-  inv_armTimer _ ⟨fun _ => iok_fresh _ _ _, by intro h; simp at h, by intro d hd; simp at hd, by intro i hi; simp at hi, by intro d hd; simp at hd⟩ (by simp [St.busy])
+  inv_armTimer _ ⟨fun _ => iok_fresh _ _ _, by intro h; simp at h, by intro d hd; simp at hd, by intro i hi; simp at hi, by intro d hd; simp at hd,
+    by intro d hd; simp at hd⟩ (by simp [St.busy])
 
 theorem run_inv (s s' : St) (ops : List Op) (h : Inv s) (hr : run s ops = some s') : Inv s' := by
   induction ops generalizing s with
